@@ -1,7 +1,309 @@
-//! Engine K (C09): crash images at every event, restart on the image.
-use std::path::Path;
-use crate::exec::Outcome;
-use crate::plan::Plan;
-pub const RULE: &str = "tbd";
-pub fn gen(seed: u64, thorough: bool) -> Plan { crate::plan::gen_history(seed, "C09", thorough) }
-pub fn run(plan: &Plan, workdir: &Path) -> Outcome { crate::exec::run_history(plan, workdir) }
+//! Engine K (C09): crash consistency. A writer history of several committed
+//! versions runs on the real stack; at every simulator event (op boundary,
+//! cancel poll, progress step, every intercepted syscall of every commit, and
+//! the middle of multi-page writes) an image of the data file is taken — the
+//! bytes of all completed write syscalls, i.e. what survives SIGKILL — and a
+//! fresh environment is restarted on the image.
+
+use std::path::{Path, PathBuf};
+use std::sync::atomic::Ordering;
+use std::sync::{Arc, Mutex};
+
+use heed::EnvOpenOptions;
+
+use crate::ctx::Observer;
+use crate::decode::{dump_hash, Dump};
+use crate::exec::{Exec, Outcome, RawDb, Stop};
+use crate::interpose::SysState;
+use crate::model::World;
+use crate::plan::{Plan, Profile, Step, VecSpec};
+use crate::turnstile::{Turnstile, WRITER};
+use crate::util::{Fnv, Rng};
+
+pub const RULE: &str = "writer histories of 2-5 committed versions; crash events are enumerated within each run: every op boundary, every cancel poll and progress step of every build (strided above 300 per build), every intercepted syscall of every commit (pre and post), torn multi-page writes; for each an image of the data file is restarted in a fresh environment and must equal the last acknowledged version (or the in-flight one once its meta-page write completed), pass C01/C02, and (sampled) carry a post-crash history; evaluations = crash images restarted; non-trivial+distinct = distinct (event class, inside-build/inside-commit/idle, version hash) images";
+
+pub fn gen(seed: u64, thorough: bool) -> Plan {
+    let mut r = Rng::new(seed ^ 0xC4A5);
+    for attempt in 0..50u64 {
+        let mut p = crate::plan::gen_history(crate::util::mix(seed, attempt), "C09", thorough);
+        p.engine = "K".into();
+        p.seed = seed;
+        let commits = p.steps.iter().filter(|s| matches!(s, Step::Commit)).count();
+        let adds = p.steps.iter().filter(|s| matches!(s, Step::Add { .. })).count();
+        if commits < 2 || adds > if thorough { 600 } else { 150 } {
+            continue;
+        }
+        p.cfg.pool = *r.pick(&[1usize, 2, 4]);
+        p.cfg.map_size = 64 << 20;
+        p.params.insert("torn".into(), r.chance(1, 2) as u64);
+        p.params.insert("post_every".into(), 6 + r.below(10));
+        return p;
+    }
+    let mut p = crate::plan::gen_history(seed, "C09", thorough);
+    p.engine = "K".into();
+    p
+}
+
+struct KState {
+    acked: (Dump, World),
+    inflight: Option<(Dump, World)>,
+    in_commit: bool,
+    meta_written: bool,
+    in_build_polls: u64,
+    images: u64,
+    violation: Option<(String, String)>,
+    busy: bool,
+    nontrivial: Vec<u64>,
+    by_class: std::collections::BTreeMap<String, u64>,
+    queries: u64,
+    post_runs: u64,
+}
+
+struct Imager {
+    st: Mutex<KState>,
+    sys: Arc<SysState>,
+    data: PathBuf,
+    image_dir: PathBuf,
+    scratch: PathBuf,
+    plan: Plan,
+    post_every: u64,
+}
+
+impl Imager {
+    fn take_and_check(&self, kind: &str, tick: u64) {
+        let mut g = self.st.lock().unwrap();
+        if g.busy || g.violation.is_some() {
+            return;
+        }
+        match kind {
+            "commit:begin" => {
+                g.in_commit = true;
+                g.meta_written = false;
+                return;
+            }
+            "committed" => {
+                if let Some(v) = g.inflight.take() {
+                    g.acked = v;
+                }
+                g.in_commit = false;
+                g.meta_written = false;
+            }
+            "commit:failed" => {
+                g.inflight = None;
+                g.in_commit = false;
+                return;
+            }
+            "sys:pwrite:post" => {
+                if g.in_commit && self.sys.last_pwrite_count.load(Ordering::SeqCst) < 4096 {
+                    g.meta_written = true;
+                }
+            }
+            _ => {}
+        }
+        // stride for long builds
+        if kind == "poll" {
+            g.in_build_polls += 1;
+            let n = g.in_build_polls;
+            if n > 300 && n % 16 != 0 {
+                return;
+            }
+        } else if kind == "op" {
+            g.in_build_polls = 0;
+        }
+        g.busy = true;
+        g.images += 1;
+        let n_image = g.images;
+        let class = if kind.starts_with("sys:") { kind.to_string() } else { kind.to_string() };
+        *g.by_class.entry(class.clone()).or_insert(0) += 1;
+        // which version must the image show?
+        let expect_new = g.in_commit && g.meta_written;
+        let (exp_dump, exp_world) = if expect_new {
+            g.inflight.clone().unwrap_or_else(|| g.acked.clone())
+        } else {
+            g.acked.clone()
+        };
+        let phase = if g.in_commit { "commit" } else if kind == "poll" || kind == "progress" { "build" } else { "idle" };
+        let mut h = Fnv::new();
+        h.write_str(&class);
+        h.write_str(phase);
+        h.write_u64(dump_hash(&exp_dump));
+        g.nontrivial.push(h.finish());
+        drop(g);
+
+        crate::ctx::SUSPEND.store(true, Ordering::SeqCst);
+        let res = self.restart_on_image(&exp_dump, &exp_world, n_image, tick);
+        crate::ctx::SUSPEND.store(false, Ordering::SeqCst);
+
+        let mut g = self.st.lock().unwrap();
+        g.busy = false;
+        match res {
+            Ok((q, post)) => {
+                g.queries += q;
+                g.post_runs += post;
+            }
+            Err((k, e)) => g.violation = Some((k, format!("crash at event `{kind}` (tick {tick}, image #{n_image}, {phase}): {e}"))),
+        }
+    }
+
+    fn restart_on_image(&self, exp: &Dump, world: &World, n_image: u64, tick: u64) -> Result<(u64, u64), (String, String)> {
+        // scratch files must be anonymous at every instant
+        for d in [&self.scratch, &crate::driver::workdir_base().join("tmp")] {
+            if let Ok(rd) = std::fs::read_dir(d) {
+                let names: Vec<String> = rd.filter_map(|e| e.ok()).map(|e| e.file_name().to_string_lossy().to_string()).collect();
+                if !names.is_empty() {
+                    return Err(("named_scratch_file".into(), format!("a crash now would leave {names:?} in {}", d.display())));
+                }
+            }
+        }
+        let _ = std::fs::remove_dir_all(&self.image_dir);
+        std::fs::create_dir_all(&self.image_dir).map_err(|e| ("harness".to_string(), e.to_string()))?;
+        std::fs::copy(&self.data, self.image_dir.join("data.mdb")).map_err(|e| ("harness".to_string(), e.to_string()))?;
+        let env = unsafe { EnvOpenOptions::new().read_txn_without_tls().map_size(self.plan.cfg.map_size).max_readers(16).open(&self.image_dir) }
+            .map_err(|e| ("image_does_not_open".to_string(), format!("the environment does not reopen: {e}")))?;
+        let mut queries = 0;
+        {
+            let rtxn = env.read_txn().map_err(|e| ("image_does_not_open".to_string(), e.to_string()))?;
+            let db: Option<RawDb> = env.open_database(&rtxn, None).map_err(|e| ("image_does_not_open".to_string(), e.to_string()))?;
+            let Some(db) = db else { return Err(("image_does_not_open".into(), "the unnamed database is missing".into())) };
+            let d = crate::snapshot::dump_txn(&rtxn, db);
+            if &d != exp {
+                return Err((
+                    "image_not_a_committed_version".into(),
+                    format!("the reopened image ({} keys, hash {:x}) is not the expected committed version ({} keys, hash {:x})", d.len(), dump_hash(&d), exp.len(), dump_hash(exp)),
+                ));
+            }
+            let (q, r) = crate::snapshot::verify_content(&rtxn, db, world, &d, &self.plan.cfg, tick);
+            queries += q;
+            r.map_err(|e| ("image_invalid".to_string(), e))?;
+        }
+        env.prepare_for_closing().wait();
+        // sampled: the state is not merely readable but maintainable
+        let mut post = 0;
+        if n_image % self.post_every == 0 {
+            let mini = post_crash_plan(&self.plan, world, tick);
+            let mut ex = Exec::on_existing(&mini, &self.image_dir, &self.scratch, world.clone(), exp.clone(), self.sys.clone());
+            let r = ex.run_steps();
+            let o = ex.finish_nested();
+            if let Some(v) = o.violation {
+                return Err(("post_crash_history".into(), format!("continuing on the restarted image: {:?} {}: {}", v.properties, v.kind, v.detail)));
+            }
+            if let Err(Stop::Unevaluable(s)) = r {
+                return Err(("post_crash_history".into(), format!("continuing on the restarted image failed: {s}")));
+            }
+            queries += o.stats.queries;
+            post = 1;
+        }
+        let _ = std::fs::remove_dir_all(&self.image_dir);
+        Ok((queries, post))
+    }
+}
+
+impl Observer for Imager {
+    fn event(&self, kind: &str, tick: u64) {
+        self.take_and_check(kind, tick);
+    }
+}
+
+/// A short history on every index of the restarted image.
+fn post_crash_plan(plan: &Plan, world: &World, salt: u64) -> Plan {
+    let mut r = Rng::new(plan.seed ^ salt.wrapping_mul(0x9E37_79B9));
+    let mut p = plan.clone();
+    p.focus = "C09".into();
+    p.steps.clear();
+    p.cfg.pool = 1;
+    // the image's model decides metric and dimension of each slot
+    for (ix, im) in world.indexes.iter().enumerate() {
+        p.cfg.indexes[ix].metric = im.metric;
+        let ids: Vec<u32> = im.items.keys().copied().collect();
+        for _ in 0..(1 + r.below(4)) {
+            p.steps.push(Step::Add { ix, id: r.below(200) as u32, v: VecSpec::Gen { profile: Profile::Lattice, seed: r.next() } });
+        }
+        if !ids.is_empty() {
+            p.steps.push(Step::Del { ix, id: ids[r.below(ids.len() as u64) as usize] });
+        }
+        p.steps.push(Step::Build { ix, n_trees: Some(1), split_after: Some(1 + r.below(5) as usize), mem: None, seed: r.next(), fault: crate::plan::Fault::None });
+    }
+    p.steps.push(Step::Commit);
+    p
+}
+
+pub fn run(plan: &Plan, workdir: &Path) -> Outcome {
+    let ts = Turnstile::new(plan.cfg.sched_seed, &plan.cfg.sched, plan.cfg.pool.max(1));
+    ts.adopt_running(WRITER);
+    let mut ex = Exec::new(plan, workdir, Some(ts));
+    crate::ctx::set_active(Some(ex.ctx.clone()));
+    ex.sys.torn.store(plan.params.get("torn").copied().unwrap_or(0) == 1, Ordering::SeqCst);
+    let empty = ex.dump_current();
+    let imager = Arc::new(Imager {
+        st: Mutex::new(KState {
+            acked: (empty, ex.world.clone()),
+            inflight: None,
+            in_commit: false,
+            meta_written: false,
+            in_build_polls: 0,
+            images: 0,
+            violation: None,
+            busy: false,
+            nontrivial: Vec::new(),
+            by_class: Default::default(),
+            queries: 0,
+            post_runs: 0,
+        }),
+        sys: ex.sys.clone(),
+        data: ex.dir.join("data.mdb"),
+        image_dir: workdir.join("image"),
+        scratch: ex.tmpdir.clone(),
+        plan: plan.clone(),
+        post_every: plan.params.get("post_every").copied().unwrap_or(8).max(1),
+    });
+    *ex.ctx.observer.write().unwrap() = Some(imager.clone());
+    let im2 = imager.clone();
+    ex.on_commit = Some(Box::new(move |d: &Dump, w: &World, _failed: bool| {
+        im2.st.lock().unwrap().inflight = Some((d.clone(), w.clone()));
+    }));
+    // run the steps; after each, surface a violation found by the imager
+    let steps = plan.steps.clone();
+    let mut res: Result<(), Stop> = Ok(());
+    for (i, st) in steps.iter().enumerate() {
+        ex.step_no = i;
+        ex.out.stats.steps += 1;
+        res = ex.step(st);
+        let v = imager.st.lock().unwrap().violation.clone();
+        if let Some((k, e)) = v {
+            if k == "harness" {
+                crate::exec::harness_error(&e);
+            }
+            let _ = ex.report(&["C09"], &k, e);
+            res = Err(Stop::Violation);
+        }
+        if res.is_err() {
+            break;
+        }
+    }
+    if res.is_ok() && ex.has_txn() {
+        ex.step_no = steps.len();
+        res = ex.do_abort();
+    }
+    if let Err(Stop::Unevaluable(s)) = res {
+        ex.out.unevaluable = Some(s);
+    }
+    *ex.ctx.observer.write().unwrap() = None;
+    ex.on_commit = None;
+    {
+        let g = imager.st.lock().unwrap();
+        ex.out.stats.cases = g.images;
+        ex.out.stats.nontrivial = g.nontrivial.clone();
+        ex.out.stats.queries += g.queries;
+        for (k, v) in &g.by_class {
+            *ex.out.stats.faults.entry(format!("crash_at_{k}")).or_insert(0) += v;
+        }
+        *ex.out.stats.probes.entry("post_crash_history".into()).or_insert(0) += g.post_runs;
+        let c = ex.sys.counters();
+        *ex.out.stats.faults.entry("torn_write".into()).or_insert(0) += c.torn_writes;
+    }
+    let out = ex.finish();
+    crate::ctx::set_active(None);
+    crate::turnstile::release_thread();
+    let _ = std::fs::remove_dir_all(workdir);
+    out
+}
